@@ -101,9 +101,13 @@ def PChain (c : ChainIn) (out : Option ChainOut) : Prop :=
     (∀ b, o.bc = some b → 1 ≤ b) ∧ 1 ≤ o.bi ∧ 0 ≤ o.riNs ∧
     (∃ a, o.aligned = some a ∧ a ≤ o.sb ∧ o.sb - a < o.bi ∧ a % o.bi = 0)
 
+/-- a written / defaulted setting list that the property requires to load -/
+def chainValid (c : ChainIn) : Bool :=
+  decide (0 ≤ c.ri.getD defRi) && (!c.kind.hasConf || decide (1 ≤ c.bc.getD defBc)) && decide (1 ≤ c.bi.getD defBi)
+
 def PChainB (c : ChainIn) (out : Option ChainOut) : Bool :=
   match out with
-  | none => true
+  | none => !chainValid c          -- a failure is allowed only for settings that are not valid
   | some o =>
     o.bc == (if c.kind.hasConf then some (c.bc.getD defBc) else none) &&
     o.bi == c.bi.getD defBi && o.sb == c.sb.getD defSb && o.riNs == c.ri.getD defRi * 1000000000 &&
@@ -230,7 +234,7 @@ def loadStr (f : SField) (v : Bytes) : Option Bytes :=
     nothing / the empty string was written) -/
 def PStr (f : SField) (v : Bytes) (out : Option Bytes) : Bool :=
   match out with
-  | none => true
+  | none => v == [] && f.required          -- only an empty required setting may fail
   | some o => o == v || (v == [] && o == f.dflt)
 
 /-- a non-empty run of ASCII digits read in base 10 -/
@@ -238,16 +242,49 @@ def decDigits (s : Bytes) : Option Nat :=
   if s = [] then none else
   s.foldl (fun acc c => acc.bind fun a => if 48 ≤ c.toNat ∧ c.toNat ≤ 57 then some (a * 10 + (c.toNat - 48)) else none) (some 0)
 
-/-- the decimal reading of a text: optional sign, then digits only (leading zeros allowed) — what "the value written,
-    as a decimal" means; anything else (0x…, 0b…, 1_000, 1e3, blanks) is not a decimal numeral -/
+/-- the decimal reading of a text: optional sign, then digits only (leading zeros allowed) -/
 def decimalReading (s : Bytes) : Option Int :=
   match s with
   | 43 :: r => (decDigits r).map fun n => (n : Int)
   | 45 :: r => (decDigits r).map fun n => -(n : Int)
   | r => (decDigits r).map fun n => (n : Int)
 
-/-- `new(big.Int).SetString(s, 10)` (BTC resource feeAmount) -/
-def loadFee (s : Bytes) : Option Int := decimalReading s
+/-! the SPEC of "the value written, as a decimal", positional and independent of any parser loop -/
+
+def isDig (c : UInt8) : Bool := decide (48 ≤ c.toNat) && decide (c.toNat ≤ 57)
+
+/-- Σ dᵢ·10^(n-1-i) -/
+def positional : Bytes → Nat
+  | [] => 0
+  | c :: cs => (c.toNat - 48) * 10 ^ cs.length + positional cs
+
+/-- one optional leading sign: (negative?, rest) -/
+def splitSign : Bytes → Bool × Bytes
+  | 43 :: r => (false, r)
+  | 45 :: r => (true, r)
+  | r => (false, r)
+
+def signed (neg : Bool) (n : Nat) : Int := if neg then -(n : Int) else (n : Int)
+
+/-- a decimal numeral is an optional sign followed by one or more ASCII digits and nothing else; its value is positional -/
+def decimalSpec (s : Bytes) : Option Int :=
+  let p := splitSign s
+  if p.2 ≠ [] ∧ p.2.all isDig = true then some (signed p.1 (positional p.2)) else none
+
+/-! the PARSER: `new(big.Int).SetString(s, 10)` — `scan` with a fixed base 10: sign, then the digit loop; a character
+    that is not a decimal digit (so also `_`, `x`, `b`, `o`, blanks: separators and prefixes exist only for base 0)
+    ends the number and SetString fails because input is left over; no digit at all fails too -/
+
+def scanDigits : Nat → Bool → Bytes → Option Nat
+  | acc, seen, [] => if seen then some acc else none
+  | acc, _, c :: cs => if isDig c then scanDigits (acc * 10 + (c.toNat - 48)) true cs else none
+
+def setString10 (s : Bytes) : Option Int :=
+  let p := splitSign s
+  (scanDigits 0 false p.2).map (signed p.1)
+
+/-- BTC resource feeAmount -/
+def loadFee (s : Bytes) : Option Int := setString10 s
 
 /-- a typed numeric setting (int64 / uint64 / float64 field) written as a JSON STRING: mapstructure's strict decoding
     refuses every string -/
@@ -257,7 +294,10 @@ def loadTypedFromString (_ : Bytes) : Option Int := none
 def PNumStr (s : Bytes) (out : Option Int) : Bool :=
   match out with
   | none => true
-  | some v => decimalReading s == some v
+  | some v => decimalSpec s == some v
+
+/-- **P20 (fee amount)**: the decimal value of the text written, and every decimal numeral loads -/
+def PFee (s : Bytes) (out : Option Int) : Bool := out == decimalSpec s
 
 /-! ### port TEXTS: `strconv.ParseUint(s, 0, 16)` as coded (base prefixes, leading-zero octal, underscores) -/
 
@@ -320,7 +360,7 @@ def portText (s : Bytes) : Option Nat := (parseUintBase0 16 s).map (· % 65536)
 /-- **P20 (port texts)**: failure, or the decimal reading of the text (and that is a 16-bit port) -/
 def PPortText (s : Bytes) (out : Option Nat) : Bool :=
   match out with
-  | none => true
+  | none => !(match decDigits s with | some p => decide (p ≤ 65535) | none => false)   -- a decimal 16-bit port must load
   | some p => decDigits s == some p && decide (p ≤ 65535)
 
 /-- the same with the KNOWN base-0 point excused: the candidate may also be exactly what base-0 parsing yields -/
@@ -370,11 +410,21 @@ def fieldsWanted : List FSpec → List (Option Int) → List Int
   | sp :: sps, w :: ws => (w.getD sp.dflt) * sp.scale :: fieldsWanted sps ws
   | _, _ => []
 
+/-- validity of one setting: sign for unsigned fields, validated minimum -/
+def fieldValid (sp : FSpec) (w : Option Int) : Bool :=
+  let v := w.getD sp.dflt
+  !(sp.unsigned && decide (v < 0)) && (match sp.minv with | some m => decide (m ≤ v) | none => true)
+
+def fieldsValid : List FSpec → List (Option Int) → Bool
+  | [], [] => true
+  | sp :: sps, w :: ws => fieldValid sp w && fieldsValid sps ws
+  | _, _ => false
+
 /-- **P20 (fields stay what was written)** on any candidate observation: the field lists read right after loading,
     after describing once, after describing twice and after the start-block computation are all the written values -/
 def PDescribe (specs : List FSpec) (ws : List (Option Int)) (out : Option (List (List Int))) : Bool :=
   match out with
-  | none => true
+  | none => !fieldsValid specs ws          -- valid settings must load
   | some snaps => !snaps.isEmpty && snaps.all fun fs => fs == fieldsWanted specs ws
 
 /-! ### general chain settings that command-line flags may override -/
@@ -416,5 +466,60 @@ def PSubNet (n : Int) (out : Option Nat) : Bool :=
   match out with
   | none => true
   | some v => (v : Int) == n
+
+/-! ### one numeric setting written as a JSON NUMBER (possibly fractional), as mapstructure decodes it -/
+
+inductive NKind where
+  | i64 | u64 | u8 | f64
+deriving DecidableEq, Repr
+
+/-- the Go field behind one setting: kind, validated minimum, unit of the loaded value -/
+structure NField where
+  kind : NKind
+  minv : Option Int
+  scale : Int
+deriving Repr
+
+/-- mapstructure (strict) decoding a number `milli/1000` into the field, as coded: a float64 is converted with
+    `int64(f)` / `uint64(f)` (truncation toward zero), unsigned kinds refuse negative numbers, and a uint8 keeps the
+    low 8 bits (`reflect.Value.SetUint`). Result in thousandths for f64 (kept exactly), in units otherwise. -/
+def decodeNum (k : NKind) (milli : Int) : Option Int :=
+  match k with
+  | .f64 => some milli
+  | .i64 => some (Int.tdiv milli 1000)
+  | .u64 => if milli < 0 then none else some (Int.tdiv milli 1000)
+  | .u8 => if milli < 0 then none else some (Int.tdiv milli 1000 % 256)
+
+/-- the constructor on that one setting: decode, validate the minimum, convert the unit -/
+def loadNum (f : NField) (milli : Int) : Option Int :=
+  match decodeNum f.kind milli with
+  | none => none
+  | some v =>
+    match f.minv with
+    | some m => if v < m then none else some (v * f.scale)
+    | none => some (v * f.scale)
+
+/-- what the property requires to load: an integer (any number for a float64 field) that the field's type can hold
+    and that passes validation -/
+def numValid (f : NField) (milli : Int) : Bool :=
+  match f.kind with
+  | .f64 => true
+  | .i64 => milli % 1000 == 0 && (match f.minv with | some m => decide (m ≤ milli / 1000) | none => true)
+  | .u64 => milli % 1000 == 0 && decide (0 ≤ milli) && (match f.minv with | some m => decide (m ≤ milli / 1000) | none => true)
+  | .u8 => milli % 1000 == 0 && decide (0 ≤ milli) && decide (milli / 1000 ≤ 255) &&
+      (match f.minv with | some m => decide (m ≤ milli / 1000) | none => true)
+
+/-- the value the property asks for -/
+def numWanted (f : NField) (milli : Int) : Int :=
+  match f.kind with
+  | .f64 => milli
+  | _ => milli / 1000 * f.scale
+
+/-- **P20 (one numeric setting)**: valid values load, and whatever loads is the number written -/
+def PNum (f : NField) (milli : Int) (out : Option Int) : Bool :=
+  match out with
+  | none => !numValid f milli
+  | some v => (f.kind == .f64 || milli % 1000 == 0) && v == numWanted f milli &&
+      (f.kind != .u8 || decide (milli / 1000 ≤ 255))
 
 end Sygma.C20
